@@ -35,6 +35,10 @@ pub enum WStep {
     UserDel { node: u64, id: u8 },
     SeqNext { node: u64, key: u8, n: u8 },
     SeqRange { node: u64, key: u8, len: u8 },
+    /// `k` next-id requests sent back to back (all in flight at once, so the node-local double buffer refills with several
+    /// range fetches outstanding), a direct range request slipped in after the first `pos` of them, then `then` ids
+    /// drawn one after another (enough to use up every range that was fetched). Executed by C19 only.
+    SeqBurst { node: u64, key: u8, k: u8, pos: u8, range_len: u8, then: u16 },
     PInstReg { node: u64, svc: u8, ip: u8, weight: u8 },
     PInstDel { node: u64, svc: u8, ip: u8 },
     Advance { ms: u64 },
@@ -48,6 +52,16 @@ pub enum WStep {
     /// one record of a data import (what TransferImportManager::apply_config does): draw a section of history ids from
     /// the config actor, optionally let a publish slip in, then write the full value with its history through raft
     Import { node: u64, t: u8, g: u8, d: u8, inter: bool },
+}
+
+/// namespace ids: two of the four are tenants that configurations are published in, so that user-created namespaces hold
+/// data (their flags then combine USER with CONFIG)
+pub fn ns_id(id: u8) -> String {
+    match id % 4 {
+        1 => TENANTS[1].to_string(),
+        2 => TENANTS[2].to_string(),
+        x => format!("ns{}", x),
+    }
 }
 
 pub fn cfg_key(t: u8, g: u8, d: u8) -> ConfigKey {
@@ -149,7 +163,8 @@ pub async fn cfg_list(n: &NodeH, tenant: Option<&str>, offset: usize, limit: usi
 
 pub async fn ns_list(n: &NodeH) -> anyhow::Result<Vec<(String, String)>> {
     match n.app.namespace_addr.send(NamespaceQueryReq::List).await?? {
-        NamespaceQueryResult::List(l) => Ok(l.iter().map(|x| (x.namespace_id.as_ref().clone(), x.namespace_name.clone())).collect()),
+        // name#flags (without the NAMING bit, which follows ephemeral registrations and legitimately changes at a restart)
+        NamespaceQueryResult::List(l) => Ok(l.iter().map(|x| (x.namespace_id.as_ref().clone(), format!("{}#{}", x.namespace_name, x.flag & !8))).collect()),
         _ => Ok(vec![]),
     }
 }
@@ -225,7 +240,7 @@ pub async fn do_step(n: &NodeH, st: &WStep, m: &mut WModel, timeout_ms: u64) -> 
             }
         }
         WStep::NsSet { id, name, .. } => {
-            let nid = format!("ns{}", id % 4);
+            let nid = ns_id(*id);
             let nm = format!("name{}", name);
             let p = NamespaceParam { namespace_id: Arc::new(nid.clone()), namespace_name: Some(nm.clone()), r#type: Some("2".to_string()) };
             match within(timeout_ms, n.app.raft_request_route.request_namespace(NamespaceRaftReq::Set(p))).await {
@@ -238,7 +253,7 @@ pub async fn do_step(n: &NodeH, st: &WStep, m: &mut WModel, timeout_ms: u64) -> 
             }
         }
         WStep::NsDel { id, .. } => {
-            let nid = format!("ns{}", id % 4);
+            let nid = ns_id(*id);
             match within(timeout_ms, n.app.raft_request_route.request_namespace(NamespaceRaftReq::Delete { id: Arc::new(nid.clone()) })).await {
                 None => OpOutcome::Timeout,
                 Some(Ok(_)) => {
@@ -330,6 +345,7 @@ pub async fn do_step(n: &NodeH, st: &WStep, m: &mut WModel, timeout_ms: u64) -> 
                 None => OpOutcome::Timeout,
             }
         }
+        WStep::SeqBurst { .. } => OpOutcome::Err("SeqBurst is executed by the C19 executor".to_string()),
         WStep::Import { t, g, d, inter, .. } => {
             use rnacos::config::model::{ConfigHistoryItemDO, ConfigValueDO};
             let (start, end) = match within(timeout_ms, n.app.config_addr.send(ConfigCmd::GetSequenceSection(100))).await {
@@ -414,7 +430,7 @@ pub async fn do_step(n: &NodeH, st: &WStep, m: &mut WModel, timeout_ms: u64) -> 
 
 pub fn step_node(st: &WStep) -> u64 {
     match st {
-        WStep::CfgSet { node, .. } | WStep::CfgDel { node, .. } | WStep::NsSet { node, .. } | WStep::NsDel { node, .. } | WStep::UserAdd { node, .. } | WStep::UserUpd { node, .. } | WStep::UserDel { node, .. } | WStep::SeqNext { node, .. } | WStep::SeqRange { node, .. } | WStep::PInstReg { node, .. } | WStep::PInstDel { node, .. } | WStep::Restart { node } | WStep::KillRestart { node } | WStep::Import { node, .. } | WStep::PlantSnapshot { node, .. } => *node,
+        WStep::CfgSet { node, .. } | WStep::CfgDel { node, .. } | WStep::NsSet { node, .. } | WStep::NsDel { node, .. } | WStep::UserAdd { node, .. } | WStep::UserUpd { node, .. } | WStep::UserDel { node, .. } | WStep::SeqNext { node, .. } | WStep::SeqRange { node, .. } | WStep::SeqBurst { node, .. } | WStep::PInstReg { node, .. } | WStep::PInstDel { node, .. } | WStep::Restart { node } | WStep::KillRestart { node } | WStep::Import { node, .. } | WStep::PlantSnapshot { node, .. } => *node,
         WStep::Advance { .. } => 0,
     }
 }
